@@ -98,6 +98,51 @@ func (vc *VC) staticCall(call ssa.CallInstruction, callee *ssa.Function, binding
 		args = append(args, vc.v(a))
 		argTypes = append(argTypes, a.Type())
 	}
+	// at_call clauses of the enclosing loop and of the function
+	{
+		var acs []*BodyCall
+		where := ""
+		if h := vc.innermostLoop(vc.blk.Index); h >= 0 {
+			if ls := vc.loopSpecs[h]; ls != nil {
+				acs = append(acs, ls.AtCalls...)
+				where = "loop " + ls.Key + ": "
+			}
+		}
+		if vc.con != nil {
+			acs = append(acs, vc.con.AtCalls...)
+		}
+		{
+			for _, ac := range acs {
+				if ac.Fn != vc.e.fname(callee) {
+					continue
+				}
+				ce := vc.envAt(vc.blk, vc.cur, nil)
+				for i, p := range callee.Params {
+					if i < len(args) {
+						ce.vars[p.Name()] = cval{t: args[i], typ: argTypes[i]}
+					}
+				}
+				t := ce.eval(ac.Req)
+				if ce.err != nil {
+					vc.unsupp("at_call %q: %v", ac.Text, ce.err)
+					continue
+				}
+				pr := ac.Props
+				if len(pr) == 0 && vc.con != nil {
+					pr = vc.con.Props
+				}
+				w := where
+				if vc.con != nil {
+					for _, x := range vc.con.AtCalls {
+						if x == ac {
+							w = ""
+						}
+					}
+				}
+				vc.check("at-call", call.Pos(), w+ac.Text, t.t, pr)
+			}
+		}
+	}
 	// arguments that are interior pointers (addresses of fields) escape into the callee
 	var escaped []*LV
 	for _, a := range c.Args {
@@ -184,7 +229,20 @@ func (vc *VC) applyContract(call ssa.CallInstruction, con *Contract, names []str
 		}
 		m = mm
 	}
+	// ghost effects of a definer are exact: do not havoc the ghost sets it defines
+	if len(con.Effects) > 0 && !m.All {
+		mm := newModSet()
+		for k, v := range m.Arr {
+			mm.Arr[k] = v
+		}
+		for _, ef := range con.Effects {
+			delete(mm.Arr, "GH:"+ef.Ghost)
+		}
+		m = mm
+	}
+	vc.freshWriteChecks(call, con, m)
 	vc.havoc(m)
+	vc.applyEffects(con, ce, call.Pos())
 	res := vc.havocResults(call)
 	ce.heap = vc.cur
 	sig := call.Common().Signature()
@@ -599,6 +657,69 @@ func (vc *VC) invokeImpls(call ssa.CallInstruction, recv Term) {
 				continue
 			}
 			vc.gfact(Imp(inf.guard, t.t))
+		}
+	}
+}
+
+// applyEffects performs the ghost updates of a definer contract. ce evaluates in the pre-state.
+func (vc *VC) applyEffects(con *Contract, ce *cenv, pos token.Pos) {
+	for _, ef := range con.Effects {
+		gty, ok := vc.e.cs.Ghosts[ef.Ghost]
+		if !ok {
+			vc.unsupp("effect on undeclared ghost %s", ef.Ghost)
+			continue
+		}
+		srt, _ := ghostSort(vc.e, gty)
+		ce.err = nil
+		k := ce.eval(ef.Key)
+		v := ce.eval(ef.Val)
+		cond := Term("true")
+		if ef.Cond != nil {
+			cond = ce.eval(ef.Cond).t
+		}
+		if ce.err != nil {
+			vc.unsupp("effect %s: %v", ef.Text, ce.err)
+			continue
+		}
+		if vc.con != nil {
+			for _, g := range vc.con.FreshWrites {
+				if g == ef.Ghost {
+					vc.check("fresh-writes", pos, g+"["+ef.Key.String()+"]", Imp(cond, Gt(ce.refOf(k), "alloc!0")), vc.con.Props)
+				}
+			}
+		}
+		name := "GH:" + ef.Ghost
+		cur := vc.arrCur(name, srt)
+		vc.setArr(name, srt, Ite(cond, Sto(cur, ce.refOf(k), v.t), cur))
+	}
+}
+
+// freshWriteChecks: when the current function declares fresh_writes g, every write to g must be at
+// an object allocated since the function's entry.
+func (vc *VC) freshWriteChecks(call ssa.CallInstruction, callee *Contract, m *ModSet) {
+	if vc.con == nil || len(vc.con.FreshWrites) == 0 {
+		return
+	}
+	for _, g := range vc.con.FreshWrites {
+		handled := false
+		if callee != nil {
+			for _, ef := range callee.Effects {
+				if ef.Ghost != g {
+					continue
+				}
+				handled = true
+				// evaluated at the call site below (key known only there): done in applyContract via ce
+			}
+		}
+		if handled {
+			continue
+		}
+		if m.All {
+			vc.check("fresh-writes", call.Pos(), g+": callee may write anywhere", "false", vc.con.Props)
+			continue
+		}
+		if lvl, has := m.Arr["GH:"+g]; has && lvl != modFresh {
+			vc.check("fresh-writes", call.Pos(), g+": callee is not declared fresh_writes", "false", vc.con.Props)
 		}
 	}
 }
